@@ -395,15 +395,18 @@ def plan(ctx):
     US = 1000000
     ranges = [('lt_1s', 0, US - 1), ('lt_1min', US, 60 * US - 1), ('lt_1h', 60 * US, 3600 * US - 1),
               ('lt_1d', 3600 * US, 86400 * US - 1), ('ge_1d', 86400 * US, 2 ** 64 - 1)]
+    NOTE = ('contracts/C18_duration.h: never throws; grammar [d:][h:][m:]s[.f]; inner fields two characters zero padded; '
+            'fields * unit + numerator of the printed seconds == usecs; h<24, m<60, s<60; requested precision')
     for nm, lo, hi in ranges:
-        # the day/hour ranges need an SMT back end (the lemma facts are used through shared terms; z3 also normalises the sums)
+        # the day/hour ranges need an SMT back end (the lemma facts are used through shared terms; z3 also normalises the sums); the
+        # widest range is checked in three groups, one per clause set of the contract (DUR_PART), which keeps every solver run short
         heavy = nm in ('lt_1d', 'ge_1d')
-        groups.append(Group(name='Time.format_duration[%s]' % nm, harness='harness/C18/duration.c', entry='h_format_duration',
-                            function='format_duration', enforce='format_duration', replace=['c18_fdiv', 'c18_lemma_dhm'],
-                            defines=['DUR_LO=%dull' % lo, 'DUR_HI=%dull' % hi], first='z3' if heavy else 'cadical', stage1=240 if heavy else 15,
-                            engines=['z3', 'cvc5'] if heavy else None, timeout=600, replay=RP,
-                            clause_note='contracts/C18_duration.h: never throws; grammar [d:][h:][m:]s[.f]; inner fields two characters zero padded; '
-                                        'fields * unit + numerator of the printed seconds == usecs; h<24, m<60, s<60; requested precision'))
+        parts = [('', [])] if nm != 'ge_1d' else [('.text', ['DUR_PART=1']), ('.value', ['DUR_PART=2']), ('.canonical', ['DUR_PART=3'])]
+        for sfx, pd in parts:
+            groups.append(Group(name='Time.format_duration[%s]%s' % (nm, sfx), harness='harness/C18/duration.c', entry='h_format_duration',
+                                function='format_duration', enforce='format_duration', replace=['c18_fdiv', 'c18_lemma_dhm'],
+                                defines=['DUR_LO=%dull' % lo, 'DUR_HI=%dull' % hi] + pd, first='z3' if heavy else 'cadical', stage1=2 if heavy else 15,
+                                engines=['z3', 'cvc5'] if heavy else None, timeout=600, replay=RP, clause_note=NOTE))
     # bounded falsifiers (never counted as proof): the same contract on narrow bands across the unit boundaries.  A source edit that
     # makes an unbounded group above undecidable within its time budget still gets a concrete, natively replayable counterexample here.
     bands = [('band_1h', 59 * 60 * US + 58 * US), ('band_1d', (23 * 3600 + 59 * 60 + 58) * US), ('band_1d13h', (86400 + 12 * 3600 + 59 * 60 + 58) * US)]
